@@ -39,7 +39,7 @@ func init() {
 			if tier == "quick" {
 				return 32
 			}
-			return 240
+			return 480
 		},
 		Batch:            4,
 		Workers:          8,
